@@ -60,6 +60,21 @@ type g16 struct {
 	info  *types.Info
 	vars  map[types.Object]*gNode
 	names map[string]types.Object
+	// params of package-local helper functions being expanded: parameter object -> argument expression
+	env   []map[types.Object]ast.Expr
+	funcs map[*types.Func]*ast.FuncDecl
+	depth int
+}
+
+// arg looks an identifier up in the helper-expansion environment.
+func (g *g16) arg(id *ast.Ident) (ast.Expr, int, bool) {
+	o := g.info.Uses[id]
+	for i := len(g.env) - 1; i >= 0; i-- {
+		if e, ok := g.env[i][o]; ok {
+			return e, i, true
+		}
+	}
+	return nil, 0, false
 }
 
 func (g *g16) funcOf(e ast.Expr) *types.Func {
@@ -84,6 +99,14 @@ func (g *g16) pkgOf(f *types.Func) string {
 }
 
 func (g *g16) interpOf(e ast.Expr) string {
+	if id, ok := ast.Unparen(e).(*ast.Ident); ok {
+		if a, lvl, ok := g.arg(id); ok {
+			saved := g.env
+			g.env = g.env[:lvl]
+			defer func() { g.env = saved }()
+			return g.interpOf(a)
+		}
+	}
 	call, ok := e.(*ast.CallExpr)
 	if !ok {
 		return "other"
@@ -121,6 +144,12 @@ func (g *g16) eval(e ast.Expr) *gNode {
 			}
 		}
 	case *ast.Ident:
+		if a, lvl, ok := g.arg(x); ok {
+			saved := g.env
+			g.env = g.env[:lvl]
+			defer func() { g.env = saved }()
+			return g.eval(a)
+		}
 		if o := g.info.Uses[x]; o != nil {
 			if n, ok := g.vars[o]; ok {
 				return n
@@ -186,6 +215,28 @@ func (g *g16) eval(e ast.Expr) *gNode {
 				return g.eval(x.Args[0])
 			case "Sentence":
 				return g.eval(x.Args[0])
+			}
+		}
+		// a helper of the example package itself whose body is `return <constructor expression>`: expand it
+		if fd := g.funcs[f]; fd != nil && g.depth < 8 && fd.Body != nil && len(fd.Body.List) == 1 {
+			if rs, ok := fd.Body.List[0].(*ast.ReturnStmt); ok && len(rs.Results) == 1 {
+				frame := map[types.Object]ast.Expr{}
+				i := 0
+				for _, fld := range fd.Type.Params.List {
+					for _, nm := range fld.Names {
+						if i < len(x.Args) {
+							frame[g.info.Defs[nm]] = x.Args[i]
+						}
+						i++
+					}
+				}
+				// arguments are evaluated in the caller's environment: wrap them lazily by pushing the frame
+				g.env = append(g.env, frame)
+				g.depth++
+				n := g.eval(rs.Results[0])
+				g.depth--
+				g.env = g.env[:len(g.env)-1]
+				return n
 			}
 		}
 		return &gNode{kind: gUnknown, why: "unrecognised constructor " + f.FullName(), pos: x.Pos()}
@@ -337,7 +388,16 @@ func (c *Ctx) ruleR16a(rule string) {
 		c.R.Fail("coverage-lost", rule, "json.NewParser", "-", "-", "function not found")
 		return
 	}
-	g := &g16{c: c, info: pk.TypesInfo, vars: map[types.Object]*gNode{}, names: map[string]types.Object{}}
+	g := &g16{c: c, info: pk.TypesInfo, vars: map[types.Object]*gNode{}, names: map[string]types.Object{}, funcs: map[*types.Func]*ast.FuncDecl{}}
+	for _, f := range pk.Syntax {
+		for _, d := range f.Decls {
+			if x, ok := d.(*ast.FuncDecl); ok && x.Recv == nil {
+				if fo, ok := pk.TypesInfo.Defs[x.Name].(*types.Func); ok {
+					g.funcs[fo] = x
+				}
+			}
+		}
+	}
 	var root *gNode
 	for _, st := range fd.Body.List {
 		switch s := st.(type) {
